@@ -235,7 +235,7 @@ theorem opAt_hon_ulist {w : World} {s : Shape} {v : Val} (c : PCtx w .A s v) (π
         · cases h
           simp only [hre, Bool.false_eq_true, if_false, StepRes]
           refine ⟨v, .useq vs, (.ulist 4 (w.a.base + offsetOf s v π) vs.length
-            (w.a.base + offsetOf s v π) (w.a.base + offsetOf s v π + size (.ulist e) (.useq vs)) inner1 pmb1), ?_, hres, ?_, ?_, rfl, rfl, rfl, rfl, rfl, rfl, Or.inr ⟨_, hspec, rfl, rfl, rfl⟩⟩
+            (w.a.base + offsetOf s v π) (w.a.base + offsetOf s v π + size (.ulist e) (.useq vs)) inner1 pmb1), ?_, hres, ?_, ?_, rfl, rfl, rfl, rfl, rfl, rfl, Or.inr (Or.inl ⟨_, hspec, rfl, rfl, rfl⟩)⟩
           · exact pctx_after c w.a.mem R1 c.good hbytes rfl rfl (by rw [← hbytes]; exact hfit)
           · simpa [World.set, World.get] using hp1
           · simpa [World.set, World.get] using hT1
